@@ -160,13 +160,60 @@ def check_join_rule(seed=3):
     return n
 
 
+def check_concrete_match(seed=5):
+    """the implementation of the concrete-vs-structured equality rule against enumeration"""
+    import z3
+
+    from pyvc import fd, strings as S
+    from pyvc.sym import eq_z3, reset_fd
+
+    reset_fd()
+    rng = random.Random(seed)
+    n = 0
+    doms = [["AV:N", "AV:L"], ["AC:L", "AC:H"], ["E:U", "E:P", "E:X"]]
+    for prefix_vals in (["CVSS:3.0/", "CVSS:3.1/"], None):
+        nodes = [fd.var("t%d_%d" % (len(prefix_vals or []), i), list(d)) for i, d in enumerate(doms)]
+        guards = [z3.BoolVal(True), z3.Bool("g1_%d" % len(prefix_vals or [])), z3.Bool("g2_%d" % len(prefix_vals or []))]
+        join = S.SCat([S.JoinPiece("/", list(zip(guards, nodes)))])
+        if prefix_vals:
+            pn = fd.var("pfx", list(prefix_vals))
+            st = S.concat(pn, join)
+        else:
+            st = join
+        possible = set()
+        for p in (prefix_vals or [""]):
+            for pres in itertools.product([False, True], repeat=2):
+                for vals in itertools.product(*doms):
+                    possible.add(p + "/".join(v for ok, v in zip((True,) + pres, vals) if ok))
+        cands = sorted(possible) + ["", "AV:N/", "/AV:N", "AV:N/E:U/AC:L", "AV:N//AC:L", "CVSS:3.0/AV:N/AC:L/E:U/", "CVSS:3.0/", "AV:L/AC:L/E:U/E:P", "CVSS:3.2/AV:N"]
+        defs = []
+        for nd in nodes + ([pn] if prefix_vals else []):
+            defs.extend(nd.definitions())
+        for c in cands:
+            z = S.structural_eq(c, st, eq_z3)
+            assert z is not None, ("rule did not apply", c)
+            sol = z3.Solver()
+            sol.add(*defs)
+            sol.add(z)
+            got = sol.check() == z3.sat
+            assert got == (c in possible), (c, got)
+            if got:
+                # and the satisfying assignment is forced: the negation of any guard choice read off c
+                m = sol.model()
+                want_g1 = ("AC:" in c)
+                assert z3.is_true(m.eval(guards[1], model_completion=True)) == want_g1, (c, "guard")
+            n += 1
+    reset_fd()
+    return n
+
+
 def main():
     import time
 
     t0 = time.time()
     out = {}
     for name, fn in (("canaries", check_canaries), ("string-axioms", check_string_axioms), ("decimal", check_decimal),
-                     ("regex", check_regex), ("join-rule", check_join_rule)):
+                     ("regex", check_regex), ("join-rule", check_join_rule), ("concrete-match", check_concrete_match)):
         try:
             out[name] = fn()
         except AssertionError as e:
